@@ -63,6 +63,7 @@ Inductive c16case :=
    which the reader then drains.  [emitted]: every change delivered, seeds, plugs and barriers included *)
 | KCollL (e : ecfg) (uo : bool) (thr : option Q) (init : list (string * cval)) (phases : list (list collop))
          (emitted : list (string * option cval * option cval))
+         (kinds : list Z)   (* the ChangeType of each delivered change as numbered by types.ChangeType: ADD 1, UPDATE 2, REMOVE 3, REPLACE 4 *)
 (* [g]: the guard as the generator computed it (so that the guard-pass rate it reports is the judge's) *)
 | KG (g : bool) (c : c16case).
 
@@ -153,6 +154,11 @@ Definition coll_full_model (e : ecfg) (uo : bool) (thr : option Q) (init : list 
 Definition coll_lossy_model (e : ecfg) (uo : bool) (thr : option Q) (init : list (string * cval)) (phases : list (list collop))
   : list (string * option cval * option cval) :=
   map triple_of (pull_collection_held id_filter (Some (model_e e)) (coll_state init) (coll_ro uo thr) (merged_events init phases)).
+(* the ChangeType of every change delivered on that path (REPLACE a kind of its own): the kind-carrying loop of
+   Cmp/CollLossy.v, which erases to the loop above (CollLossyProofs.pull_collection_held_k_erase) *)
+Definition coll_lossy_kinds (e : ecfg) (uo : bool) (thr : option Q) (init : list (string * cval)) (phases : list (list collop))
+  : list Z :=
+  map snd (pull_collection_held_k unit id_filter (model_e e) (coll_state init) (coll_ro uo thr) (merged_events_k init phases)).
 
 (* masks.ResponseFilter.FilterClone for a mask of top-level field names, on messages without unknown
    fields: the listed populated fields are kept; an empty mask resets the message *)
@@ -210,7 +216,11 @@ Definition agrees_core (c : c16case) : bool :=
   | KColl e uo thr init ops emitted => list_eqb triple_eqb emitted (coll_full_model e uo thr init ops)
   | KStreamM paths e seed writes emitted => cvals_eqb emitted (pull_model_m paths e seed writes)
   | KCollM paths e uo thr init ops emitted => list_eqb triple_eqb emitted (coll_full_model_m paths e uo thr init ops)
-  | KCollL e uo thr init phases emitted => list_eqb triple_eqb emitted (coll_lossy_model e uo thr init phases)
+  | KCollL e uo thr init phases emitted kinds =>
+      (* one run of the kind-carrying loop: its changes are [coll_lossy_model]'s (Props/C16.v
+         C16_collection_lossy_kinds_model_erase), its kinds [coll_lossy_kinds] *)
+      let run := pull_collection_held_k unit id_filter (model_e e) (coll_state init) (coll_ro uo thr) (merged_events_k init phases) in
+      list_eqb triple_eqb emitted (map triple_of (map fst run)) && list_eqb Z.eqb kinds (map snd run)
   | KG _ _ => false
   end.
 
@@ -359,7 +369,7 @@ Definition ok_core (c : c16case) : bool :=
       list_eqb pair_eqb (map (fun t : string * option cval * option cval => (fst (fst t), snd t)) emitted)
                ((if uo then [] else map (fun p : string * cval => (fst p, Some (snd p))) view)
                 ++ ideal_coll_m f e thr view ops)
-  | KCollL e uo thr init phases emitted =>
+  | KCollL e uo thr init phases emitted _ =>
       let view0 := seen_init thr init in
       let seeds := if uo then [] else map (fun p : string * cval => (fst p, Some (snd p))) view0 in
       let ds := map (fun t : string * option cval * option cval => (fst (fst t), snd t)) emitted in
@@ -418,41 +428,53 @@ Definition guard_core (c : c16case) : bool :=
       forallb (fun p : string * cval => opt_guard (Some (snd p))) init
       && forallb (fun o : collop => opt_guard (snd o)) ops && ecfg_guard e
       && match thr with Some t => small_dyadic t | None => true end
-  | KCollL e _ thr init phases _ =>
+  | KCollL e _ thr init phases _ _ =>
       forallb (fun p : string * cval => opt_guard (Some (snd p))) init
       && forallb (fun o : collop => opt_guard (snd o)) (List.concat phases) && ecfg_guard e
       && match thr with Some t => small_dyadic t | None => true end
   | KG _ _ => false
   end.
 
-(* ---------- known-finding classes ---------- *)
-(* a Duration whose seconds or whose total lie beyond the int64 nanosecond range (about 292 years):
-   AsDuration saturates *)
-Fixpoint has_sat_duration (x : cval) : bool :=
+(* ---------- scope of the soundness proof beyond the guard ---------- *)
+(* a Duration whose nanos field lies outside int32 (impossible for a real message: the field is an int32; the
+   tree type carries arbitrary integers).  DurationValueWithin is the exact distance on every other Duration,
+   whatever its seconds (ToleranceProofs.duration_accepts_iff_within); before /repo's (seconds, nanos) repair
+   this predicate was "beyond the int64 nanosecond range" and a known-finding class *)
+Fixpoint has_wide_nanos (x : cval) : bool :=
   match x with
   | CS _ => false
   | CM ty _ fs _ =>
-      (String.eqb ty dur_full && negb (in64 (get_int "seconds" fs * giga) && in64 (total_nanos fs)))
-      || existsb (fun kv : string * cval => let (_, a) := kv in has_sat_duration a) fs
-  | CL l => existsb has_sat_duration l
-  | CMap m => existsb (fun e : cscalar * cval => let (_, a) := e in has_sat_duration a) m
+      (String.eqb ty dur_full && negb (in32 (get_int "nanos" fs)))
+      || existsb (fun kv : string * cval => let (_, a) := kv in has_wide_nanos a) fs
+  | CL l => existsb has_wide_nanos l
+  | CMap m => existsb (fun e : cscalar * cval => let (_, a) := e in has_wide_nanos a) m
   end.
-Definition opt_sat (x : option cval) : bool := match x with Some a => has_sat_duration a | None => false end.
+Definition opt_wide (x : option cval) : bool := match x with Some a => has_wide_nanos a | None => false end.
 Definition is_dur (c : vcfg) : bool := match c with VDur _ => true | _ => false end.
 
-(* class 1: a configuration containing DurationValueWithinP (a ratio test: neither reflexive nor
-   symmetric); class 2: DurationValueWithin on a pair holding a Duration beyond +-292 years *)
-Definition obs_class (x y : option cval) (o : obs) : option Z :=
+(* [obs_scope] = None: the observation is one the soundness theorem speaks about (no DurationValueWithinP;
+   int32 nanos under DurationValueWithin) *)
+Definition obs_scope (x y : option cval) (o : obs) : option Z :=
   match o with
   | OEq e _ =>
       if has_durp e then Some 1
-      else if existsb is_dur (cfg_vs e) && (opt_sat x || opt_sat y) then Some 2
+      else if existsb is_dur (cfg_vs e) && (opt_wide x || opt_wide y) then Some 2
       else None
   | OComb _ _ _ _ => None
   | OTree t _ =>
       if existsb is_durp (tree_leaves t) then Some 1
-      else if existsb is_dur (tree_leaves t) && (opt_sat x || opt_sat y) then Some 2
+      else if existsb is_dur (tree_leaves t) && (opt_wide x || opt_wide y) then Some 2
       else None
+  end.
+
+(* ---------- known-finding classes ---------- *)
+(* class 1: a configuration containing DurationValueWithinP (a ratio test: neither reflexive nor symmetric).
+   (class 2, DurationValueWithin beyond +-292 years, is gone: repaired in /repo) *)
+Definition obs_class (x y : option cval) (o : obs) : option Z :=
+  match o with
+  | OEq e _ => if has_durp e then Some 1 else None
+  | OComb _ _ _ _ => None
+  | OTree t _ => if existsb is_durp (tree_leaves t) then Some 1 else None
   end.
 
 Definition class_core (c : c16case) : option Z :=
